@@ -296,6 +296,37 @@ def worker_main():
             b2[4] = (b2[4] & 3) | (r2.randrange(64) << 2)
             muts.append(bytes(b2))
         digests.append([decode_digest(m) for m in muts])
+    if os.environ.get('VERIF_C02_LENGTH_SWEEP'):
+        # the written form at frame lengths around the multiples of 64 KiB (the stream writer's buffer limit, a natural place to cut a large
+        # frame into writes): what TransportTCP.send_frame writes is the 3-byte length followed by the one-shot encoding, whatever the length
+        sweep = []
+        for base in (65536, 131072, 196608):
+            for L in range(base - 6, base + 7):
+                sweep.append(('data', L, 0, L - 6))
+            for L in (base - 3, base - 2, base - 1, base, base + 1, base + 3):
+                sweep.append(('metadata+data', L, 70, L - 6 - 3 - 70))
+        for what, L, ml, dl in sweep:
+            g = fr.PayloadFrame()
+            g.stream_id = 5
+            g.flags_next = True
+            g.data = bytes((i * 7 + L) & 0xFF for i in range(dl))
+            if ml:
+                g.metadata = bytes((i * 3 + 1) & 0xFF for i in range(ml))
+            one = bytes(g.serialize())
+            w3 = W()
+            c3 = TransportTCP(None, w3).send_frame(g)
+            try:
+                while True:
+                    c3.send(None)
+            except StopIteration:
+                pass
+            except Exception as ex:
+                fails.append({'clause': 'C02.incremental_form_identical', 'ft': 'PAYLOAD', 'detail': 'PAYLOAD (%s) of encoded length %d: send_frame raised %s' % (what, L, type(ex).__name__), 'k': 0})
+                continue
+            if len(one) != L or bytes(w3.buf) != L.to_bytes(3, 'big') + one:
+                fails.append({'clause': 'C02.incremental_form_identical', 'ft': 'PAYLOAD',
+                              'detail': 'PAYLOAD (%s) of encoded length %d: TransportTCP.send_frame wrote %d bytes, the length prefix + one-shot encoding is %d bytes%s' % (
+                                  what, L, len(w3.buf), 3 + len(one), '' if len(w3.buf) != 3 + len(one) else ' (contents differ)'), 'k': 0})
     json.dump({'backend': used, 'fails': fails, 'digests': digests}, open(outp, 'w'))
 
 
@@ -332,7 +363,8 @@ def run(v):
                 outp = inp.replace('.json', '.out.json')
                 json.dump(part, open(inp, 'w'))
                 p = subprocess.Popen([common.PY, '-c', 'import sys; sys.argv=["x","w",%r,%r,%r,%r]; from vf.props import c02; c02.worker_main()' % (
-                    backend, inp, outp, str(sd))], env=env, cwd=common.ROOT, stdout=subprocess.PIPE, stderr=subprocess.STDOUT, text=True)
+                    backend, inp, outp, str(sd))], env=dict(env, VERIF_C02_LENGTH_SWEEP='1') if sh == 0 else env, cwd=common.ROOT,
+                    stdout=subprocess.PIPE, stderr=subprocess.STDOUT, text=True)
                 procs.append((backend, sh, part, p, outp))
         results = {}
         for backend, sh, part, p, outp in procs:
